@@ -30,6 +30,11 @@ pub fn rfc1071_checksum(bytes: &[u8]) -> u16 {
     net_utils::rfc1071_checksum(bytes)
 }
 
+/// the filter both production loggers apply to a record
+pub fn log_enabled(metadata: &log::Metadata) -> bool {
+    log_utils::is_enabled(metadata)
+}
+
 pub fn scrub_sni(sni: String) -> String {
     net_utils::scrub_sni(sni)
 }
